@@ -1,7 +1,7 @@
 (** Correspondence glue for C20: compares observations of the implementation
     with the generated Gallina translation of the same Go functions and with
     the specification codec. *)
-From Hts Require Import Base.Prim Generated Model.Itf8Spec.
+From Hts Require Import Base.Prim Generated Model.Itf8Spec Model.CramStream.
 Open Scope Z_scope.
 
 Fixpoint zlist_eqb (a b : list Z) : bool :=
@@ -15,7 +15,13 @@ Inductive c20case :=
 | EncI (v : Z) (buf : list Z) (pan : bool) (n : Z) (out : list Z) (len : Z)
 | DecI (b : list Z) (v n : Z) (ok : bool)
 | EncL (v : Z) (buf : list Z) (pan : bool) (n : Z) (out : list Z) (len : Z)
-| DecL (b : list Z) (v n : Z) (ok : bool).
+| DecL (b : list Z) (v n : Z) (ok : bool)
+(** Decode panicked in the implementation ([ltf] = the LTF-8 one) *)
+| DecPanic (ltf : bool) (b : list Z)
+(** a script of errorReader calls over [input] whose source ends with error
+    class [tail]; [pan]: the implementation panicked; [steps]: per call the
+    values returned, the class of r.err and the bytes consumed so far *)
+| Strm (input : list Z) (tail : Z) (ops : list Z) (pan : bool) (steps : list (list Z * Z * Z)).
 
 Definition enc_agree (r : outcome (Z * list Z)) (l : outcome Z) (pan : bool) (n : Z) (out : list Z) (len : Z) : bool :=
   match r with
@@ -31,12 +37,30 @@ Definition dec_agree (r : outcome (Z * Z * bool)) (v n : Z) (ok : bool) : bool :
   | _ => false
   end.
 
+Fixpoint steps_eqb (a b : list (list Z * Z * Z)) : bool :=
+  match a, b with
+  | [], [] => true
+  | (v, e, k) :: a', (v', e', k') :: b' => zlist_eqb v v' && (e =? e') && (k =? k') && steps_eqb a' b'
+  | _, _ => false
+  end.
+
+Definition strm_agree (r : outcome (list (list Z * Z * Z))) (pan : bool) (steps : list (list Z * Z * Z)) : bool :=
+  match r with
+  | Ok st => negb pan && steps_eqb steps st
+  | Panic _ => pan
+  | _ => false
+  end.
+
 Definition c20_agree (c : c20case) : bool :=
   match c with
   | EncI v buf pan n out len => enc_agree (itf8_Encode buf v) (itf8_Len v) pan n out len
+                                && (pan || zlist_eqb (itf8_canon (firstn (Z.to_nat n) out)) (itf8_spec_encode v))
   | DecI b v n ok => dec_agree (itf8_Decode b) v n ok
                      && (let '(v', n', ok') := itf8_spec_decode b in (v =? v') && (n =? n') && Bool.eqb ok ok')
   | EncL v buf pan n out len => enc_agree (ltf8_Encode buf v) (ltf8_Len v) pan n out len
+                                && (pan || zlist_eqb (firstn (Z.to_nat n) out) (ltf8_spec_encode v))
   | DecL b v n ok => dec_agree (ltf8_Decode b) v n ok
                      && (let '(v', n', ok') := ltf8_spec_decode b in (v =? v') && (n =? n') && Bool.eqb ok ok')
+  | DecPanic ltf b => if ltf then is_panic (ltf8_Decode b) else is_panic (itf8_Decode b)
+  | Strm input tail ops pan steps => strm_agree (er_run ops (mkER input tail 0) (zlen input)) pan steps
   end.
